@@ -166,7 +166,9 @@ Definition stsc_ok (tb : tables) : bool :=
   end
   && entries_ok (sc_entries (t_stsc tb)) (nchunks tb)
   && (sumN (counts_of tb) =? nsamples tb)
-  && (negb (sc_single (t_stsc tb) =? 0) || (lenN (sc_ids (t_stsc tb)) =? lenN (sc_entries (t_stsc tb)))).
+  && (if sc_single (t_stsc tb) =? 0 then lenN (sc_ids (t_stsc tb)) =? lenN (sc_entries (t_stsc tb))
+      else lenN (sc_ids (t_stsc tb)) =? 0)
+  && forallb (fun x => negb (x =? 0)) (sc_ids (t_stsc tb)) && is_u32 (sc_single (t_stsc tb)).
 
 Definition stsz_ok (tb : tables) : bool :=
   let z := t_stsz tb in
